@@ -70,6 +70,7 @@ func (e *Env) AddServerWithKey(name string, key *refsrv.RSAKey) (*refsrv.Server,
 		}
 	}
 	s.Fault = e.Sc.Fault
+	s.ClockOffset = e.Sc.ServerClockOffset
 	return s, nil
 }
 
@@ -190,6 +191,27 @@ func (f faultyStore) Store(s *session.Session) error {
 
 func (e *Env) NewClient(host string) error {
 	cfg := mtproto.Config{AuthKeyFile: e.SessionPath(), ServerHost: host, PublicKey: e.PublicKey()}
+	if r := e.Sc.Resume; r != nil && r.Via != "" {
+		cfg = mtproto.Config{SessionStorage: session.NewFromFile(e.SessionPath()), ServerHost: host, PublicKey: e.PublicKey()}
+		other := filepath.Join(e.Dir, "legacy-session.json")
+		switch r.Via {
+		case "both-absent":
+			cfg.AuthKeyFile = other
+		case "both-other":
+			cfg.AuthKeyFile = other
+			ok := append([]byte{}, r.AuthKey...)
+			for i := range ok {
+				ok[i] ^= 0x3c
+			}
+			sb := make([]byte, 8)
+			binary.LittleEndian.PutUint64(sb, uint64(r.Salt+1))
+			b, _ := json.Marshal(map[string]string{"key": base64.StdEncoding.EncodeToString(ok), "hash": base64.StdEncoding.EncodeToString(ref.AuthKeyID(ok)),
+				"salt": base64.StdEncoding.EncodeToString(sb), "hostname": "127.0.0.1:9"})
+			if err := os.WriteFile(other, b, 0o600); err != nil {
+				return err
+			}
+		}
+	}
 	if e.Sc.RPC != nil {
 		for _, st := range e.Sc.RPC.Steps {
 			if st.Op == "store-fault" {
